@@ -941,10 +941,26 @@ def rule_I3(ctx, rule: str = "I3") -> None:
         for k_, cas_ in _table_fills_by_paths(ctx, mod, init, table_attr):
             fills.append((k_, cas_, True, assigned[0]))
     node = fills[0][3] if fills else assigned[0]
+    # "receives no cased keys" is a statement about a construction that was read in full: a helper of the repository that
+    # builds (part of) the table and was not followed leaves the question open instead
+    opaque_source = None
+    if not fills:
+        flow = {src_var}
+        for a_ in ast.walk(init):
+            if isinstance(a_, (ast.Assign, ast.AnnAssign)) and getattr(a_, "value", None) is not None:
+                t_ = a_.targets[0] if isinstance(a_, ast.Assign) else a_.target
+                if ast.unparse(t_) in flow or (isinstance(t_, ast.Attribute) and t_.attr == table_attr):
+                    for c_ in ast.walk(a_.value):
+                        if isinstance(c_, ast.Call):
+                            f_ = c_.func.id if isinstance(c_.func, ast.Name) else c_.func.attr if isinstance(c_.func, ast.Attribute) else None
+                            if f_ and (mod.has(f_) or mod.has(f"ProtoClassMetadata.{f_}")) and f_ not in ("Casing",):
+                                opaque_source = opaque_source or f_
     for q, e in emit.items():
         name = f"{q}:keys-in-table"
         covered = sorted({cas for k, cas, dom, _ in fills if k == e and dom})
-        if not fills:
+        if not fills and opaque_source:
+            ctx.inconclusive(rule, name, f"the construction of {table_attr} goes through {opaque_source}, which is not read", mod.loc(node))
+        elif not fills:
             ctx.refuted(rule, name, "no-cased-keys-at-construction", mod.loc(node),
                         f"when the class metadata is built, {table_attr} receives no cased keys (only what {src_var} holds); {q} emits {e}. Keys recorded later (e.g. while serialising) "
                         "are missing for a process that parses before it serialises", "a consumer calling M.from_json on text produced elsewhere")
